@@ -15,6 +15,7 @@ import xyzpy.gen.cropping as cp
 from xyzpy.gen.combo_runner import combo_runner
 from xyzpy.gen.case_runner import case_runner
 
+CONFORMANCE = ("fakefs", "random")
 FUNCS = CROP_FUNCS
 
 
